@@ -2,8 +2,8 @@
    Only statements; every proof is `exact <lemma>` (witness lemmas: evaluation).
    Model: ModelFilters.v ([fx = true]: the code after the fix commits F6/F6b/F7 on branch
    verif-filters; [fx = false]: the code as found).  Scores are f32 BIT PATTERNS; [tkey] is the
-   integer key of `f32::total_cmp`; [flt] is IEEE `<`.  [w] is the SIMD width, [add] the f32
-   addition and [sm] the softmax: the theorems hold for EVERY w >= 1, add and sm. *)
+   integer key of `f32::total_cmp`; [flt] is IEEE `<`.  [w] is the SIMD width, [add] / [ops] the f32
+   operations and [sm] the softmax: the theorems hold for EVERY w >= 1, add, ops and sm. *)
 From RV Require Import Prelude.
 From Filters Require Import Floats ModelFilters Filters_proofs.
 From Coq Require Import Permutation Sorted.
@@ -71,27 +71,27 @@ Proof. exact topp_never_panics. Qed.
 (* (5) chains: the empty chain is the identity, a chain is the (panic-propagating) composition
        of its filters, concatenation composes, nesting flattens, and the result is the outcome of
        the last filter when the filters are applied one at a time *)
-Theorem C31_chain_is_composition : forall fx w add sm,
-  (forall l, run fx w add sm (FChain []) l = Ok l) /\
-  (forall g r l, run fx w add sm (FChain (g :: r)) l =
-                 bind (run fx w add sm g l) (run fx w add sm (FChain r))) /\
-  (forall fs gs l, run fx w add sm (FChain (fs ++ gs)) l =
-                   bind (run fx w add sm (FChain fs) l) (run fx w add sm (FChain gs))) /\
-  (forall fs l, run fx w add sm (FChain fs) l = run fx w add sm (FChain (flatten fs)) l) /\
-  (forall fs l, run_list fx w add sm fs l = last (run_steps fx w add sm fs l) (Ok l)).
+Theorem C31_chain_is_composition : forall fx w ops sm,
+  (forall l, run fx w ops sm (FChain []) l = Ok l) /\
+  (forall g r l, run fx w ops sm (FChain (g :: r)) l =
+                 bind (run fx w ops sm g l) (run fx w ops sm (FChain r))) /\
+  (forall fs gs l, run fx w ops sm (FChain (fs ++ gs)) l =
+                   bind (run fx w ops sm (FChain fs) l) (run fx w ops sm (FChain gs))) /\
+  (forall fs l, run fx w ops sm (FChain fs) l = run fx w ops sm (FChain (flatten fs)) l) /\
+  (forall fs l, run_list fx w ops sm fs l = last (run_steps fx w ops sm fs l) (Ok l)).
 Proof.
-  intros fx w add sm. split; [|split; [|split; [|split]]].
-  - exact (run_chain_nil fx w add sm).
-  - exact (run_chain_cons fx w add sm).
-  - exact (run_chain_app fx w add sm).
-  - exact (run_flatten fx w add sm).
-  - exact (run_list_steps fx w add sm).
+  intros fx w ops sm. split; [|split; [|split; [|split]]].
+  - exact (run_chain_nil fx w ops sm).
+  - exact (run_chain_cons fx w ops sm).
+  - exact (run_chain_app fx w ops sm).
+  - exact (run_flatten fx w ops sm).
+  - exact (run_list_steps fx w ops sm).
 Qed.
 
 (* (6) no filter (TopK, TopP, Temperature, token-id filter, Sort, Chain, nested chains) panics,
        for any sparse or dense input, including fewer candidates than K *)
-Theorem C31_no_filter_panics : forall w add sm, (1 <= w)%nat ->
-  forall f l, run true w add sm f l <> Panic.
+Theorem C31_no_filter_panics : forall w ops sm, (1 <= w)%nat ->
+  forall f l, run true w ops sm f l <> Panic.
 Proof. exact run_fixed_never_panics. Qed.
 
 (* (7) the executable oracles used on the implementation's outputs decide exactly these contracts *)
@@ -140,9 +140,9 @@ Definition f7_sm : list N -> list N :=   (* the softmax values the Rust run prod
 (* F7: TopP::new(0.5) (normalize documented "true by default") keeps all three raw logits,
        which is not the 0.5-nucleus of their softmax (0.665, 0.245, 0.090) *)
 Theorem C31_F7_topp_default_refuted : exists p l out,
-  run false 8 fadd f7_sm (FTopP p NormDefault) l = Ok out /\
+  run false 8 f32ops f7_sm (FTopP p NormDefault) l = Ok out /\
   out = l /\ topp_ok_b fadd f7_sm p true l out = false /\
-  run true 8 fadd f7_sm (FTopP p NormDefault) l = Ok [(0, 1059736891)].
+  run true 8 f32ops f7_sm (FTopP p NormDefault) l = Ok [(0, 1059736891)].
 Proof. exists 1056964608, f7_in, f7_in. vm_compute. auto. Qed.
 
 (* non-vacuity: the fixed model on the same inputs *)
